@@ -357,25 +357,44 @@ def grow_link_descr(repo):
     if len(created) != 1 or not (isinstance(created[0].value, ast.Call) and isinstance(created[0].value.func, ast.Name)
                                  and created[0].value.func.id == 'Node'):
         tr.err(lp, '%s is not bound exactly once to a new Node' % fnode)
-    return text, lp.lineno
+    return text, lp.lineno, fnode
 
 
 def generate(repo):
     """-> (text, items, errors)"""
+    from translate import t_treepop
     items, errors, defs = [], [], []
-    jobs = [('cross_src', lambda: method_descr(repo, GP_REL, 'GP', '_cross', 5, False), GP_REL, '_cross'),
-            ('mutate_src', lambda: method_descr(repo, GP_REL, 'GP', '_mutate', 4, True), GP_REL, '_mutate'),
-            ('grow_link_src', lambda: grow_link_descr(repo), TREE_REL, 'grow')]
-    for name, job, rel, item in jobs:
+    link = {}
+
+    def grow_link():
+        r = grow_link_descr(repo)
+        link['fnode'] = r[2]
+        return r
+
+    def grow_sel():
+        if 'fnode' not in link:
+            raise TranslationError(TREE_REL, None, 'the linking statements of grow were not translated')
+        return t_treepop.grow_descr(repo, link)
+    jobs = [('cross_src', 'list stmt', '[]', lambda: method_descr(repo, GP_REL, 'GP', '_cross', 5, False), GP_REL, '_cross'),
+            ('mutate_src', 'list stmt', '[]', lambda: method_descr(repo, GP_REL, 'GP', '_mutate', 4, True), GP_REL, '_mutate'),
+            ('grow_link_src', 'list stmt', '[]', grow_link, TREE_REL, 'grow (linking)'),
+            ('grow_src', 'list gstmt', '[]', grow_sel, TREE_REL, 'grow (selection and creation)'),
+            ('reproduction_src', 'list pstmt', '[]', lambda: t_treepop.pop_method(repo, '_reproduction'), GP_REL, '_reproduction'),
+            ('mutation_src', 'list pstmt', '[]', lambda: t_treepop.pop_method(repo, '_mutation'), GP_REL, '_mutation'),
+            ('crossover_src', 'list pstmt', '[]', lambda: t_treepop.pop_method(repo, '_crossover'), GP_REL, '_crossover'),
+            ('prune_src', 'prune_d', '(PruneClampLow 0)', lambda: t_treepop.prune_descr(repo), GP_REL, '_prune_nodes')]
+    for name, ty, dummy, job, rel, item in jobs:
         try:
             r = job()
-            defs.append('(* %s:%d %s *)\nDefinition %s : list stmt :=\n  %s.\n' % (rel, r[1], item, name, r[0]))
+            defs.append('(* %s:%d %s *)\nDefinition %s : %s :=\n  %s.\n' % (rel, r[1], item, name, ty, r[0]))
             items.append({'file': rel, 'line': r[1], 'text': '%s := %s' % (name, ' '.join(r[0].split())[:300])})
         except TranslationError as ex:
             errors.append({'item': item, 'file': ex.file or rel, 'line': ex.line, 'msg': ex.msg})
             # an obviously different value: the equality theorem of Props/C08.v breaks as well
-            defs.append('(* %s: translation FAILED: %s *)\nDefinition %s : list stmt := [].\n' % (item, ex.msg.replace('*)', '* )'), name))
+            defs.append('(* %s: translation FAILED: %s *)\nDefinition %s : %s := %s.\n'
+                        % (item, ex.msg.replace('*)', '* )').replace('(*', '( *'), name, ty, dummy))
     text = ('(* GENERATED by translate/t_treeops.py from %s and %s -- do not edit *)\n'
-            'From Coq Require Import List.\nFrom OV Require Import Model.TreeOpsDescr.\nImport ListNotations.\n\n'
+            'From Coq Require Import List ZArith.\n'
+            'From OV Require Import Model.TreeOpsDescr Model.TreePopDescr Model.TreeGrowDescr.\nImport ListNotations.\n\n'
             % (GP_REL, TREE_REL)) + '\n'.join(defs)
     return text, items, errors
